@@ -208,6 +208,7 @@ def normalize_url(
     unsplit=True,
     quoted=False,
     query_item_filter=None,
+    lowercase=False,
 ):
     """
     Function normalizing the given url by stripping it of usually
@@ -305,6 +306,11 @@ def normalize_url(
     # are found however they were escaped
     path = safely_unquote_path(path)
 
+    # NOTE: `lowercase` (fingerprint_url) folds the case of what was just
+    # unescaped too, before the steps below look at it ("%41" is "A")
+    if lowercase:
+        path = path.lower()
+
     if path:
         trailing_slash = False
         if path.endswith("/") and len(path) > 1:
@@ -347,9 +353,14 @@ def normalize_url(
         # TODO: should be dedupe query items?
         # NOTE: items are unescaped first so that the filters and the sort
         # cannot be fooled by the way an item was escaped
+        qsl = safely_unquote_qsl(safe_qsl_iter(query))
+
+        if lowercase:
+            qsl = [(k.lower(), v.lower() if v is not None else None) for k, v in qsl]
+
         qsl = [
             item
-            for item in safely_unquote_qsl(safe_qsl_iter(query))
+            for item in qsl
             if not should_strip_query_item(
                 item,
                 normalize_amp=normalize_amp,
@@ -365,6 +376,9 @@ def normalize_url(
     # NOTE: the fragment is unescaped first so that a routing fragment is
     # recognized however it was escaped
     fragment = safely_unquote_fragment(fragment)
+
+    if lowercase:
+        fragment = fragment.lower()
 
     if fragment and strip_fragment:
         if strip_fragment is True or not should_strip_fragment(fragment):
